@@ -151,7 +151,7 @@ package iscp
 //@ global errors.ErrStreamClosed != nil
 
 // connStatus.current is protected by the embedded RWMutex; Closed is terminal.
-//@ guarded connStatus.RWMutex: current
+//@ guarded[C09,C10] connStatus.RWMutex: current
 //@ rely connStatus: imp(old(self.current) == connStatusClosed, self.current == connStatusClosed)
 
 //@ func (*connStatus).IsWithoutLock
@@ -746,3 +746,15 @@ package iscp
 //@ func (*Conn).OpenUpstream
 //@   props C20
 //@   assert call registerUpstream: arg1 != nil && cap(arg1.explicitlyFlushCh) == 0 && cap(arg1.explicitlyFlushResultCh) == 0 && cap(arg1.dpgCh) == 0
+
+//@ guarded[C09] Conn.upstreamMu: upstreams
+//@ guarded[C09] Conn.downstreamMu: downstreams
+//@ guarded[C09] streamState.RWMutex: current
+
+// the stream status helpers named ...WithoutLock are checked at their call sites (inlined)
+//@ func (*streamState).IsWithoutLock
+//@   inline
+//@ func (*streamState).CurrentWithoutLock
+//@   inline
+//@ func (*streamState).SwapWithoutLock
+//@   inline
